@@ -183,7 +183,9 @@ type verifCase struct {
 	Prefix string       `json:"prefix"`
 	Pre    []verifEvent `json:"pre"`    // before Build (nothing is watching yet)
 	During []verifEvent `json:"during"` // while Build's first UpdateState is in progress
-	Post   []verifEvent `json:"post"`   // after Build has returned
+	Mid    []verifEvent `json:"mid"`    // after Build has returned (before the second target is built)
+	Second string       `json:"second"` // key of a second discov:// target built by the same builder ("" = none)
+	Post   []verifEvent `json:"post"`   // after the last Build has returned
 }
 
 var verifSeq int64
@@ -210,8 +212,8 @@ func TestVerifDriver(t *testing.T) {
 		}
 		built := make(chan error, 1)
 		go func() {
-			var b discovBuilder
-			_, err := b.Build(resolver.Target{URL: *u}, cc, resolver.BuildOptions{})
+			// the builder registered for the discov scheme
+			_, err := discovResolverBuilder.Build(resolver.Target{URL: *u}, cc, resolver.BuildOptions{})
 			built <- err
 		}()
 		gated := false
@@ -257,6 +259,44 @@ func TestVerifDriver(t *testing.T) {
 			}
 		}
 		if stuck == "" {
+			for _, ev := range cs.Mid {
+				if s := etcd.apply(ev); s != "" {
+					stuck = s
+					break
+				}
+			}
+		}
+		var cc2 *verifCC
+		if stuck == "" && cs.Second != "" {
+			cc2 = &verifCC{entered: make(chan struct{}), release: make(chan struct{})}
+			close(cc2.release)
+			u2, err := url.Parse("discov://" + host + "/" + cs.Second)
+			if err != nil {
+				return map[string]any{"error": err.Error()}
+			}
+			n0 := len(etcd.streams())
+			built2 := make(chan error, 1)
+			go func() {
+				_, err := discovResolverBuilder.Build(resolver.Target{URL: *u2}, cc2, resolver.BuildOptions{})
+				built2 <- err
+			}()
+			select {
+			case err := <-built2:
+				if err != nil {
+					stuck = "build 2: " + err.Error()
+				}
+			case <-time.After(verifWait):
+				stuck = "build 2 does not return"
+			}
+			deadline := time.Now().Add(verifWait)
+			for stuck == "" && len(etcd.streams()) <= n0 {
+				if time.Now().After(deadline) {
+					stuck = "no watch stream for the second target"
+				}
+				time.Sleep(50 * time.Microsecond)
+			}
+		}
+		if stuck == "" {
 			for _, ev := range cs.Post {
 				if s := etcd.apply(ev); s != "" {
 					stuck = s
@@ -267,7 +307,13 @@ func TestVerifDriver(t *testing.T) {
 		cc.mu.Lock()
 		states := append([][]string{}, cc.states...)
 		cc.mu.Unlock()
-		return map[string]any{"states": states, "gated": gated, "at_release": atRelease, "stuck": stuck,
+		out := map[string]any{"states": states, "gated": gated, "at_release": atRelease, "stuck": stuck,
 			"streams": len(etcd.streams())}
+		if cc2 != nil {
+			cc2.mu.Lock()
+			out["states2"] = append([][]string{}, cc2.states...)
+			cc2.mu.Unlock()
+		}
+		return out
 	})
 }
